@@ -85,6 +85,7 @@ type WorldSpec struct {
 	QuantDepth int // quantifier nesting depth
 	MaxDepth   int // connective depth
 	AtomFilter func(AtomKind) bool
+	ManyQuants bool // root formula: one flat conjunction / disjunction of all (possibly negated) leaves: many quantified siblings in one validation
 	WideOr     bool // root formula: a disjunction of 3-5 conjunctions of 2-3 (possibly negated) leaves, and its dual
 }
 
@@ -95,6 +96,28 @@ func NewWorld(r *rand.Rand, spec WorldSpec) (*World, F) {
 	quants := w.newQuants(spec.NQuants, spec.QuantDepth, spec.MaxDepth, spec.AtomFilter)
 	gen := &LeafGen{R: r, Atoms: atoms, Quants: quants, MaxDepth: spec.MaxDepth}
 	root := w.boundedFormula(gen, atoms, quants, 40, 160)
+	if spec.ManyQuants {
+		// every quantified expression of a validation gets its own variable, in the order of writing: with 5 to 10
+		// siblings the later names of the generator's list are in use (no formula of the random families gets there)
+		var lits []F
+		for _, a := range atoms {
+			lits = append(lits, FAtom{a})
+		}
+		for _, q := range quants {
+			lits = append(lits, FQuant{q})
+		}
+		r.Shuffle(len(lits), func(i, j int) { lits[i], lits[j] = lits[j], lits[i] })
+		for i := range lits {
+			if r.Intn(4) == 0 {
+				lits[i] = FNot{lits[i]}
+			}
+		}
+		if r.Intn(3) == 0 {
+			root = FOr{lits}
+		} else {
+			root = FAnd{lits}
+		}
+	}
 	if spec.WideOr && len(atoms)+len(quants) >= 2 {
 		// cross-product expansion with several composite operands (up to 3^5 branches): the shape in which
 		// aliasing or off-by-one slips of the branch expansion show
@@ -295,4 +318,64 @@ func (w *World) boundedFormula(gen *LeafGen, atoms, quants []int, maxBranches, m
 			return ensureLeaves(gen.leaf(), atoms, quants, w.R)
 		}
 	}
+}
+
+// NewSiblingWorld builds one validation made of n quantified expressions written one after the other, each over its
+// own path and with a body of one atom (sibling j: kind kinds[(j+offset) mod len]). Every quantified expression of
+// a validation is translated with its own variable, handed out in the order of writing: the sweep puts every kind of
+// atomic constraint at every position of that order. Target k (k < n) falsifies exactly sibling k, target n none,
+// so that a wrong verdict of one sibling is not masked by another.
+func NewSiblingWorld(r *rand.Rand, base, n, offset int, kinds []AtomKind) (*World, F) {
+	w := &World{Base: base, G: NewGraph(), Truth: map[string]map[int]bool{}, Pfx: map[string]string{"ex": EX}, R: r}
+	neg := make([]bool, n)      // the sibling is written under `not`
+	innerNeg := make([]bool, n) // the body is the negated atom
+	var lits []F
+	for j := 0; j < n; j++ {
+		w.Atoms = append(w.Atoms, kinds[(j+offset)%len(kinds)])
+		neg[j], innerNeg[j] = r.Intn(4) == 0, r.Intn(4) == 0
+		q := &Quant{Kind: pick(r, "nested", "nested", "atLeast"), N: 1, Shape: "pred", Twin: -1, InnerAtoms: []int{j}}
+		q.Path = Pred{Prefix: "ex", Local: fmt.Sprintf("c%dx%d", base, j)}
+		q.PathStr = PrintPath(q.Path)
+		q.Inner = FAtom{j}
+		if innerNeg[j] {
+			q.Inner = FNot{FAtom{j}}
+		}
+		w.Quants = append(w.Quants, q)
+		var l F = FQuant{j}
+		if neg[j] {
+			l = FNot{l}
+		}
+		lits = append(lits, l)
+	}
+	for k := 0; k <= n; k++ {
+		t := w.newNode(fmt.Sprintf("T%d", base))
+		w.Truth[t.ID] = map[int]bool{}
+		for j := 0; j < n; j++ {
+			quantTruth := (j != k) != neg[j]
+			var bodies []bool // truth of the body on each reached node
+			switch w.Quants[j].Kind {
+			case "nested":
+				if quantTruth {
+					bodies = []bool{true, true}[:1+r.Intn(2)]
+				} else {
+					bodies = []bool{true, false}
+				}
+			default: // atLeast 1
+				if quantTruth {
+					bodies = []bool{true, false}[:1+r.Intn(2)]
+				} else {
+					bodies = []bool{false, false}[:r.Intn(3)]
+				}
+			}
+			r.Shuffle(len(bodies), func(a, b int) { bodies[a], bodies[b] = bodies[b], bodies[a] })
+			for _, bt := range bodies {
+				c := w.newNode(fmt.Sprintf("C%d", base))
+				at := bt != innerNeg[j]
+				w.Atoms[j].Assign(c, w.AtomProp(j), at, r)
+				w.Truth[c.ID] = map[int]bool{j: at}
+				t.Add(fmt.Sprintf("%sc%dx%d", EX, base, j), RefV(c.ID))
+			}
+		}
+	}
+	return w, FAnd{lits}
 }
